@@ -3,7 +3,7 @@ from __future__ import annotations
 
 import ast
 
-from ..fdai import Interp, Obj, PyRaise, Unknown, ExcVal, explore, Imprecise, stub, _sym
+from ..fdai import Interp, Obj, PyRaise, Unknown, ExcVal, explore, Imprecise, PathLimit, stub, _sym
 from ..loader import AnchorError, short, src, walk_no_nested
 from ..mayraise import Escapes
 from ..resolve import Resolver
@@ -204,13 +204,21 @@ def run(p, led, tier):
                 out[tag] = dict(raised=repr(e.exc))
         return out
 
+    partial_strats = set()
     for strat in STRATS:
         try:
             paths = []
             for ncoer in ((0, 2, 8) if strat == "LENIENT" else (0,)):
-                paths += [r for _, r in explore(lambda o: one(o, strat, ncoer), max_paths=20000)]
+                try:
+                    paths += [r for _, r in explore(lambda o: one(o, strat, ncoer), max_paths=20000)]
+                except PathLimit:
+                    # the twins no longer ask the same questions (their symbols differ), so the path space is a product: the
+                    # first paths are judged (every one is a real path); finding nothing on them decides nothing
+                    sampled = [r for _, r in explore(lambda o: one(o, strat, ncoer), max_paths=3000, partial=True)]
+                    paths += sampled
+                    partial_strats.add(strat)
             if strat == "REPAIR":
-                extreme = [r for _, r in explore(lambda o: one(o, strat, 0, True), max_paths=2000)]
+                extreme = [r for _, r in explore(lambda o: one(o, strat, 0, True), max_paths=2000, partial=True)]     # looks for a witness only
                 for r in extreme:
                     en = r["enhanced"]
                     if en.get("valid") is True:
@@ -272,6 +280,10 @@ def run(p, led, tier):
             key = f"strategy {strat} ▸ {okmsg.split(' ⇒')[0] if '⇒' in okmsg else okmsg}"
             if bad:
                 led.fail(rule, key, where(fn, fn.node), f"{len(bad)} path(s): {bad[0]}", path=sorted(set(bad))[:8])
+            elif strat in partial_strats:
+                if not (b1 or b2 or b4 or b5):
+                    raise AnchorError(f"strategy {strat}: more than 20000 paths and nothing found on the first {len(paths)}: not decided")
+                led.undecided(rule, key, where(fn, fn.node), f"only the first {len(paths)} of more than 20000 paths were judged (the twins ask different questions)")
             else:
                 led.ok(rule, key, where(fn, fn.node), f"{len(paths)} path(s) ({nvalid} valid results): {okmsg}")
         if strat == "STRICT":
